@@ -209,7 +209,7 @@ func (C07) Generate(r *rand.Rand, tier string, idx int) *drv.Scenario {
 			steps = append(steps, drv.Op{Op: "c7mark", V: v})
 		}
 	}
-	sc := &drv.Scenario{Family: fam, Knobs: baseKnobs(r), Steps: steps}
+	sc := &drv.Scenario{Family: fam, Knobs: baseKnobs(r), Steps: steps, Fixed: 2}
 	return sc
 }
 
